@@ -7,7 +7,7 @@
  *   put <map> <keyhex> <valhex>            user-space bpf_map_update_elem(BPF_ANY)  (map: skip|policy|audit|local)
  *   del <map> <keyhex>                     user-space bpf_map_delete_elem
  *   get <map> <keyhex>                     user-space bpf_map_lookup_elem (does not touch LRU order)
- *   connect4 <ip4hex> <port4hex> <protocol> <family> <socktype>
+ *   connect4 <ip4hex> <port4hex> <protocol> <family> <socktype> [<bound source ip4hex>]
  *   tcp <family> <daddrhex4> <dporthex2> <sport> <saddrhex4>
  *   nop                                    nothing happens in the program (a step of the environment); maps are dumped
  *   reset                                  empty all maps
@@ -43,7 +43,7 @@ static int dump_on = 1;
 void verif_prog_init(void);
 void verif_prog_layout(void);
 int verif_connect4(const unsigned char ip4[4], const unsigned char port4[4], unsigned protocol, unsigned family,
-                   unsigned type, unsigned char out_ip4[4], unsigned char out_port4[4]);
+                   unsigned type, const unsigned char bound_ip4[4], unsigned char out_ip4[4], unsigned char out_port4[4]);
 int verif_tcp_connect(unsigned family, const unsigned char daddr[4], const unsigned char dport[2],
                       unsigned short sport_host, const unsigned char saddr[4]);
 
@@ -209,12 +209,13 @@ int main(void)
             if (v) { printf(",\"val\":\""); puthex(v, m->vs); printf("\""); } else printf(",\"val\":null");
             free(k);
             full = 0;
-        } else if (!strcmp(a[0], "connect4") && n == 6) {
-            unsigned char ip[4], port[4], oip[4], oport[4];
+        } else if (!strcmp(a[0], "connect4") && (n == 6 || n == 7)) {
+            unsigned char ip[4], port[4], oip[4], oport[4], bound[4] = {0, 0, 0, 0};
             unhex(a[1], ip, 4, "connect4 ip"); unhex(a[2], port, 4, "connect4 port");
+            if (n == 7) unhex(a[6], bound, 4, "connect4 bound source");
             unsigned pk = printk_calls;
             int r = verif_connect4(ip, port, (unsigned)strtoul(a[3], 0, 10), (unsigned)strtoul(a[4], 0, 10),
-                                   (unsigned)strtoul(a[5], 0, 10), oip, oport);
+                                   (unsigned)strtoul(a[5], 0, 10), bound, oip, oport);
             printf(",\"ret\":%d,\"ip\":\"", r); puthex(oip, 4); printf("\",\"port\":\""); puthex(oport, 4);
             printf("\",\"printk\":%u", printk_calls - pk);
         } else if (!strcmp(a[0], "tcp") && n == 6) {
